@@ -13,3 +13,24 @@ pub fn set_capacity_override(capacity: usize) {
 pub(crate) fn capacity_override() -> Option<NonZero<usize>> {
     NonZero::new(CAPACITY_OVERRIDE.load(Ordering::SeqCst))
 }
+
+pub use crate::verif_sync::{AtomicOp, Hooks, install};
+
+/// Called whenever a thread-safe pool's inner pool is accessed: `(address, is_write)`.
+pub type PoolAccessHook = fn(addr: usize, write: bool);
+
+static POOL_ACCESS_HOOK: AtomicUsize = AtomicUsize::new(0);
+
+/// Installs (or with `None` removes) the pool access notification callback.
+pub fn install_pool_access_hook(hook: Option<PoolAccessHook>) {
+    POOL_ACCESS_HOOK.store(hook.map_or(0, |h| h as usize), Ordering::SeqCst);
+}
+
+pub(crate) fn notify_pool_access<P>(pool: *const P, write: bool) {
+    let raw = POOL_ACCESS_HOOK.load(Ordering::Relaxed);
+    if raw != 0 {
+        // SAFETY: Only ever set from a `PoolAccessHook` function pointer.
+        let hook = unsafe { std::mem::transmute::<usize, PoolAccessHook>(raw) };
+        hook(pool as usize, write);
+    }
+}
